@@ -60,6 +60,87 @@ PCA_FEED = ["array", "list", "pc", "pciter"]
 # pciter  : PCAModel fed generators + n_samples            (as_matrix, iterator branch)
 
 
+# ---------------------------------------------------------------------------------------------------
+# argument forms: the SAME sample values handed over in every other legal form.  The payload of these roots is
+# integer valued (0..15 for PCA, 0..45 for the GMRF) so that it is exactly representable in every dtype below; the
+# expectation is always computed in float64 from the values.  A form is a letter only where the unchanged tree accepts it
+# (probed on /repo, numpy 2.5): flag `init` = the constructor takes it too (the PCA constructor centres in place, so it
+# refuses integer and read-only input and keeps float32 as its working precision - those forms are used for the
+# increments only, after a float64 initial batch); flag `gmrf` = usable for the random field (all are since fix D32; the GMRF
+# constructor takes every exact form too, so there the initial batch is presented in the form as well); flag `loose` = single precision input, compared at 1e4 x the tolerances (DESIGN 2.6: float32 letters).
+# name -> (init, gmrf, loose)
+# ---------------------------------------------------------------------------------------------------
+FORMS = {
+    "f64": (1, 1, 0),  # control: contiguous float64 ndarray of the integer payload
+    "f32": (0, 1, 1),
+    "i64": (0, 1, 0),
+    "i32": (0, 1, 0),
+    "i16": (0, 1, 0),
+    "i8": (0, 1, 0),
+    "u8": (0, 1, 0),
+    "u16": (0, 1, 0),
+    "pyfloat": (1, 1, 0),  # list of lists of python floats
+    "pyint": (0, 1, 0),  # list of lists of python ints          (np.array(...) -> int64)
+    "tupfloat": (1, 1, 0),  # tuple of tuples of python floats
+    "tupint": (0, 1, 0),
+    "npfloat": (1, 1, 0),  # list of lists of numpy float64 scalars
+    "npint": (0, 1, 0),  # list of lists of numpy int64 scalars
+    "rowsi64": (0, 1, 0),  # list of 1-d int64 arrays
+    "rowsf32": (0, 1, 1),  # list of 1-d float32 arrays
+    "readonly": (0, 1, 0),  # float64, flags.writeable = False
+    "colstrided": (1, 1, 0),  # every second column of a wider array
+    "rowstrided": (1, 1, 0),  # every second row of a taller array
+    "fortran": (1, 1, 0),  # column-major
+    "npcount": (1, 1, 0),  # list of 1-d arrays with n_samples given as a numpy integer
+}
+DTYPES = {"f64": np.float64, "f32": np.float32, "i64": np.int64, "i32": np.int32, "i16": np.int16, "i8": np.int8, "u8": np.uint8, "u16": np.uint16}
+INT_FORMS = ("i64", "i32", "i16", "i8", "u8", "u16", "pyint", "tupint", "npint", "rowsi64")
+
+
+def present(form, rows):
+    """the float64 matrix `rows` (integer valued) in the given form -> (object, extra keyword arguments)."""
+    rows = np.array(rows, dtype=np.float64, copy=True)
+    if form in INT_FORMS and not np.all(rows == np.round(rows)):
+        raise ValueError("integer forms need an integer valued payload")
+    if form in DTYPES:
+        out = rows.astype(DTYPES[form])
+        if not np.array_equal(out.astype(np.float64), rows):
+            raise ValueError("payload not representable as %s" % form)
+        return out, {}
+    if form == "pyfloat":
+        return [[float(v) for v in r] for r in rows], {}
+    if form == "pyint":
+        return [[int(v) for v in r] for r in rows], {}
+    if form == "tupfloat":
+        return tuple(tuple(float(v) for v in r) for r in rows), {}
+    if form == "tupint":
+        return tuple(tuple(int(v) for v in r) for r in rows), {}
+    if form == "npfloat":
+        return [[np.float64(v) for v in r] for r in rows], {}
+    if form == "npint":
+        return [[np.int64(v) for v in r] for r in rows], {}
+    if form == "rowsi64":
+        return [r.astype(np.int64) for r in rows], {}
+    if form == "rowsf32":
+        return [r.astype(np.float32) for r in rows], {}
+    if form == "readonly":
+        rows.flags.writeable = False
+        return rows, {}
+    if form == "colstrided":
+        wide = np.full((rows.shape[0], 2 * rows.shape[1]), -7.0)
+        wide[:, ::2] = rows
+        return wide[:, ::2], {}
+    if form == "rowstrided":
+        tall = np.full((2 * rows.shape[0], rows.shape[1]), -7.0)
+        tall[::2] = rows
+        return tall[::2], {}
+    if form == "fortran":
+        return np.asfortranarray(rows), {}
+    if form == "npcount":
+        return [r.copy() for r in rows], {"n_samples": np.int64(rows.shape[0])}
+    raise ValueError(form)
+
+
 def _svals_ok(M):
     s = np.linalg.svd(M, compute_uv=False)
     if s[0] == 0:
@@ -110,6 +191,8 @@ def pca_data(seed, d, n, kind, b):
             X[b:] += 1.5  # the later samples move the mean away from zero
         elif kind == "lowrank":
             X = r.randn(n, 2).dot(r.randn(2, d)) * 1.5 + 3.0 * r.rand(d)
+        elif kind == "int":
+            X = r.randint(0, 16, size=(n, d)).astype(np.float64)
         else:
             raise ValueError(kind)
         ok = True
@@ -224,13 +307,17 @@ def gmrf_definition(P, name, k, mode, bias):
 
 
 @_memo
-def gmrf_data(seed, nv, k, n):
+def gmrf_data(seed, nv, k, n, integer=0):
     """n x (nv*k) correlated data; redraw until every block covariance (single vertex, every vertex pair in
     both edge modes) of every prefix >= GMRF_MIN_BATCH has condition number <= COND_MAX."""
     d = nv * k
     for attempt in range(500):
-        r = rs(seed, "c11-gmrf", nv, k, n, attempt)
+        r = rs(seed, "c11-gmrf", nv, k, n, attempt) if not integer else rs(seed, "c11-gmrf-int", nv, k, n, attempt)
         X = r.randn(n, d).dot(np.eye(d) + 0.35 * r.randn(d, d)) + 2.0 * r.rand(d)
+        if integer:
+            # integer valued, 0..45 (fits int8); X^T X and x_i - x_j of such rows leave the range of int8 / uint8 / uint16,
+            # which is what fix D32 (conversion to float64 before any arithmetic) is about
+            X = np.clip(np.round(7.0 * X + 20.0), 0, 45)
         worst = 0.0
         for p in range(GMRF_MIN_BATCH, n + 1):
             P = X[:p]
@@ -244,7 +331,7 @@ def gmrf_data(seed, nv, k, n):
                 break
         if worst <= COND_MAX:
             return X
-    raise RuntimeError("conditioning guard could not be satisfied for %r" % ((nv, k, n),))
+    raise RuntimeError("conditioning guard could not be satisfied for %r" % ((nv, k, n, integer),))
 
 
 # ---------------------------------------------------------------------------------------------------
@@ -300,6 +387,13 @@ class C11(Check):
                         for feed in PCA_FEED:
                             for b in range(2, n):
                                 out.append(("pca", d, n, centred, kind, feed, 1, b))
+        # argument forms: integer valued payload presented in every form of FORMS
+        for n in [6] if self.tier == "quick" else [6, 8]:
+            for d in ds:
+                for centred in (1, 0):
+                    for form in FORMS:
+                        for b in range(2, n):
+                            out.append(("pca", d, n, centred, "int", "form:" + form, 1, b))
         # every composition executed as its own trace (no merging): array feed for every n in scope
         # (n = 12: initial batch >= 4, i.e. 256 compositions per letter; the merging roots above execute every 2- and
         # 3-part composition of every prefix literally, because every state they reach at level 1 is expanded once
@@ -326,6 +420,16 @@ class C11(Check):
                                     out.append(("gmrf", g, mode, sparse, bias, k, feed, n, b, 1))
                             for b in range(GMRF_MIN_BATCH, n):
                                 out.append(("gmrf", g, mode, sparse, bias, k, "array", n, b, 0))
+        # argument forms for the random field: vertex-block path (edgeless) and edge path (chain; thorough: also the rooted tree and the digraph)
+        for g in ["edgeless", "chain"] if self.tier == "quick" else ["edgeless", "chain", "tree", "digraph"]:
+            modes = ["concatenation", "subtraction"] if GRAPHS[g][2] else ["concatenation"]
+            for mode in modes:
+                for sparse in (1, 0):
+                    for bias in (0, 1):
+                        for form in FORMS:
+                            if FORMS[form][1]:
+                                for b in range(GMRF_MIN_BATCH, n):
+                                    out.append(("gmrf", g, mode, sparse, bias, 2, "form:" + form, n, b, 1))
         # the driver hands out consecutive chunks of roots: deal the roots, heaviest first, into 128 groups of equal
         # estimated cost so that no worker ends up with all the 1024-composition roots (order is a fixed function of the tier)
         def cost(r):
@@ -344,8 +448,17 @@ class C11(Check):
             return self._build_pca(root)
         return self._build_gmrf(root)
 
-    def _feed_pca(self, st, rows):
+    @staticmethod
+    def _feed_form(st, rows, initial):
+        form = st["feed"][5:]
+        if initial and (FORMS[form][2] or (st["fam"] == "pca" and not FORMS[form][0])):
+            return np.array(rows, dtype=np.float64, copy=True), {}
+        return present(form, rows)
+
+    def _feed_pca(self, st, rows, initial=False):
         feed = st["feed"]
+        if feed.startswith("form:"):
+            return self._feed_form(st, rows, initial)
         rows = np.array(rows, copy=True)  # the model centres its input in place (inplace=True is the default)
         if feed == "array":
             return rows, {}
@@ -364,14 +477,17 @@ class C11(Check):
         _, d, n, centred, kind, feed, merge, b = root
         X = pca_data(self.seed, d, n, kind, b if kind == "zero" else 0)
         st = {"fam": "pca", "root": root, "X": X, "n": n, "d": d, "centred": bool(centred), "feed": feed, "merge": merge, "consumed": b, "hist": (), "pc_shape": _pc_shape(d), "scale": max(1.0, float(np.abs(X).max()))}
-        data, kw = self._feed_pca(st, X[:b])
-        cls = PCAVectorModel if feed in ("array", "list") else PCAModel
+        st["tolx"] = 1e4 if feed.startswith("form:") and FORMS[feed[5:]][2] else 1.0
+        data, kw = self._feed_pca(st, X[:b], initial=True)
+        cls = PCAModel if feed in ("pc", "pciter") else PCAVectorModel
         st["model"], st["error"] = _try(lambda: cls(data, centre=bool(centred), **kw))
         st["ref"] = pca_definition(X[:b], bool(centred))
         return st
 
-    def _feed_gmrf(self, st, rows):
+    def _feed_gmrf(self, st, rows, initial=False):
         feed = st["feed"]
+        if feed.startswith("form:"):
+            return self._feed_form(st, rows, initial)
         rows = np.array(rows, copy=True)
         if feed == "array":
             return rows, {}
@@ -389,10 +505,11 @@ class C11(Check):
 
         _, g, mode, sparse, bias, k, feed, n, b, merge = root
         nv = GRAPHS[g][1]
-        X = gmrf_data(self.seed, nv, k, n)
+        X = gmrf_data(self.seed, nv, k, n, 1 if feed.startswith("form:") else 0)
         st = {"fam": "gmrf", "root": root, "X": X, "n": n, "g": g, "nv": nv, "k": k, "mode": mode, "sparse": bool(sparse), "bias": bias, "feed": feed, "merge": merge, "consumed": b, "hist": (), "scale": max(1.0, float(np.abs(X).max()))}
-        data, kw = self._feed_gmrf(st, X[:b])
-        cls = GMRFVectorModel if feed in ("array", "list") else GMRFModel
+        st["tolx"] = 1e4 if feed.startswith("form:") and FORMS[feed[5:]][2] else 1.0
+        data, kw = self._feed_gmrf(st, X[:b], initial=True)
+        cls = GMRFModel if feed in ("pc", "pciter") else GMRFVectorModel
         st["model"], st["error"] = _try(lambda: cls(data, make_graph(g), mode=mode, sparse=bool(sparse), bias=bias, dtype=np.float64, incremental=True, **kw))
         st["ref"] = gmrf_definition(X[:b], g, k, mode, bias)
         return st
@@ -429,7 +546,7 @@ class C11(Check):
             if a.shape == r.shape and np.all(np.isfinite(a)):
                 # quantised deviation from the definition: 0 everywhere unless this history produced something
                 # observably different from the other histories that reached the same prefix
-                q = np.round((a - r) / (GRID_FRACTION * TOLS[name] * sc[name])) + 0.0
+                q = np.round((a - r) / (GRID_FRACTION * TOLS[name] * st["tolx"] * sc[name])) + 0.0
                 key.append((name, a.shape, q.astype(np.int64).tobytes() if np.abs(q).max(initial=0) < 2 ** 62 else obs_key(a, 6)))
             else:
                 key.append((name, "shape", obs_key(a, 6)))
@@ -495,7 +612,7 @@ class C11(Check):
                 self.note("%s:running-mean-exactly-zero" % fam)
             self.note("%s:%s" % (fam, "centred" if st["centred"] else "uncentred"))
             self.note("pca-data:%s" % st["root"][4])
-            self.note("pca-feed:%s" % st["feed"])
+            self.note(("pca-form:%s" % st["feed"][5:]) if st["feed"].startswith("form:") else ("pca-feed:%s" % st["feed"]))
             self.note("pca-chunk:%s" % ("one-sample" if j == 1 else "several"))
         else:
             self.note("gmrf-graph:%s" % st["g"])
@@ -503,7 +620,7 @@ class C11(Check):
             self.note("gmrf-storage:%s" % ("sparse" if st["sparse"] else "dense"))
             self.note("gmrf-bias:%d" % st["bias"])
             self.note("gmrf-k:%d" % st["k"])
-            self.note("gmrf-feed:%s" % st["feed"])
+            self.note(("gmrf-form:%s" % st["feed"][5:]) if st["feed"].startswith("form:") else ("gmrf-feed:%s" % st["feed"]))
             self.note("gmrf-chunk:%s" % ("one-sample" if j == 1 else "several"))
         self.note("%s:%s" % ("pca-step" if st["fam"] == "pca" else "gmrf-step", "agrees" if not fails else "differs"))
         self.note("history:%s" % ("first-increment" if len(st["hist"]) == 1 else "later-increment"))
@@ -535,7 +652,7 @@ class C11(Check):
         fails = []
         if o["n"] != exp["n"]:
             fails.append(Failure(where, "n_samples" + suffix, "n_samples = %r, %s has %r (%s)" % (o["n"], what, exp["n"], ctx)))
-        tols = TOLS
+        tols = {k: v * st["tolx"] for k, v in TOLS.items()}
         names = {"mean": "mean", "eig": "eigenvalues", "proj": "subspace", "spec": "eigen-directions", "prec": "precision"}
         for key in ("mean", "eig", "proj", "spec", "prec"):
             if key not in sc:
@@ -607,6 +724,7 @@ class C11(Check):
             "gmrf-k:1",
             "gmrf-k:2",
         ]
+        need += ["pca-form:%s" % f for f in FORMS] + ["gmrf-form:%s" % f for f in FORMS if FORMS[f][1]] + ["pca-data:int"]
         need += ["pca-data:%s" % k for k in PCA_DATA] + ["pca-feed:%s" % f for f in PCA_FEED] + ["gmrf-feed:%s" % f for f in GMRF_FEED]
         need += ["gmrf-graph:%s" % g for g in (GRAPHS_QUICK if self.tier == "quick" else GRAPHS_THOROUGH)]
         out = ["outcome %s never produced" % n for n in need if not notes.get(n)]
@@ -634,6 +752,7 @@ class C11(Check):
             "pca_d": ds,
             "pca_data_letters": PCA_DATA,
             "pca_feed_letters": PCA_FEED,
+            "argument_forms": {f: {"also_initial_batch": bool(v[0]), "gmrf": bool(v[1]), "single_precision_tolerance_x1e4": bool(v[2])} for f, v in FORMS.items()},
             "pca_compositions_per_n": {str(n): 2 ** (n - 2) for n in ns},
             "gmrf_graphs": GRAPHS_QUICK if self.tier == "quick" else GRAPHS_THOROUGH,
             "gmrf_n": 9 if self.tier == "quick" else 12,
@@ -648,6 +767,9 @@ class C11(Check):
             "all under the general-position guard printed in the alphabet (unambiguous numerical rank of every prefix; block covariances with condition number <= %g)" % COND_MAX,
             "PCA: n <= %d samples, d in {3, 5, 10}, initial batch >= 2, forgetting factor 1.0 (default), all components active" % max(self._pca_sizes()[0]),
             "GMRF: 3 (thorough: also 4) vertices, 1 or 2 features per vertex, initial batch >= %d so that every block covariance is invertible, float64, n_components=None" % GMRF_MIN_BATCH,
+            "argument forms (integer payload in float32 / int64 / int32 / int16 / int8 / uint8 / uint16, python lists and tuples of floats and ints, numpy scalars, "
+            "lists of rows, read-only, strided, Fortran-order, numpy-integer n_samples) are letters only where the unchanged tree accepts them: the PCA constructor "
+            "refuses integer and read-only input (it centres in place), so those forms are fed to increment() only; np.matrix is refused / mis-indexed; bool is not a sample matrix",
             "'random chunkings for larger n' of the quantifier are sampling and outside the technique; every composition of every n in scope is covered instead",
             "states reached by different chunkings of the same prefix are merged when their observations agree within a tenth of the tolerance (after their own step oracle passed); "
             "merge=0 roots and the thorough-tier confluence re-expansion do not rely on that abstraction",
